@@ -1,7 +1,7 @@
 import Spine.Callbacks
 /-! C14, the "right message" half: a registration is invoked only by an accepted arrival for its own feature and
-    counter that comes after the registration, and it *is* invoked by the first such arrival. Together with
-    `c14_at_most_once`: exactly once. -/
+    counter that comes after the registration, with the data and origin of that arrival, and it *is* invoked by the
+    first such arrival. Together with `c14_at_most_once`: exactly once. Then the result callbacks. -/
 namespace Spine.CB
 
 /-- an arrival that the feature hands to the response callbacks -/
@@ -20,6 +20,9 @@ theorem snoc_induction {α} {P : List α → Prop} (nil : P []) (snoc : ∀ l a,
 theorem run_snoc (b : Bool) (evs : List Ev) (e : Ev) : run b (evs ++ [e]) = step b (run b evs) e := by
   simp [run, List.foldl_append]
 
+theorem run_append (b : Bool) (pre post : List Ev) : run b (pre ++ post) = post.foldl (step b) (run b pre) := by
+  simp [run, List.foldl_append]
+
 /-- every registration in the registry stems from a `register` event with its feature, counter and function -/
 theorem regs_registered (b : Bool) (evs : List Ev) :
     ∀ r ∈ (run b evs).regs, Ev.register r.feat r.ctr r.cb ∈ evs := by
@@ -36,25 +39,30 @@ theorem regs_registered (b : Bool) (evs : List Ev) :
       · rcases List.mem_append.mp hr with hr | hr
         · exact List.mem_append_left _ (ih r hr)
         · simp only [List.mem_singleton] at hr; subst hr; simp
-    | arrive a f ref reply acc =>
+    | registerResult f cb => exact List.mem_append_left _ (ih r hr)
+    | resultCbs a f d src => exact List.mem_append_left _ (ih r hr)
+    | arrive a f ref reply acc d src =>
       simp only [step] at hr
       split at hr
       · exact List.mem_append_left _ (ih r hr)
       · exact List.mem_append_left _ (ih r (List.mem_filter.mp hr).1)
 
-/-- C14, "never for another reference or another feature, never before it was registered": every invocation
-    (registration `x.1`, arrival `x.2`) is caused by an accepted arrival `x.2` for a feature and counter for which a
-    registration was made earlier in the history, and that arrival is one the feature delivers -/
+/-- C14, "with the received data and the originating remote feature … never for another reference or another
+    feature", and never before it was registered: every invocation `x` is caused by an accepted arrival `x.arr` that
+    carries exactly the data `x.data` and the origin `x.src`, for a feature and counter for which a registration was
+    made earlier in the history, and that arrival is one the feature delivers -/
 theorem c14_only_for_own_message (b : Bool) (evs : List Ev) :
     ∀ x ∈ (run b evs).fired, ∃ f c cb reply pre post,
-      evs = pre ++ Ev.arrive x.2 f c reply true :: post ∧ Ev.register f c cb ∈ pre ∧ Delivers b f reply := by
+      evs = pre ++ Ev.arrive x.arr f c reply true x.data x.src :: post ∧ Ev.register f c cb ∈ pre ∧
+      Delivers b f reply := by
   induction evs using snoc_induction with
   | nil => intro x hx; simp [run] at hx
   | snoc evs e ih =>
     intro x hx
     rw [run_snoc] at hx
     have old : x ∈ (run b evs).fired → ∃ f c cb reply pre post,
-        evs ++ [e] = pre ++ Ev.arrive x.2 f c reply true :: post ∧ Ev.register f c cb ∈ pre ∧ Delivers b f reply := by
+        evs ++ [e] = pre ++ Ev.arrive x.arr f c reply true x.data x.src :: post ∧ Ev.register f c cb ∈ pre ∧
+        Delivers b f reply := by
       intro h
       obtain ⟨f, c, cb, reply, pre, post, heq, hreg, hd⟩ := ih x h
       exact ⟨f, c, cb, reply, pre, post ++ [e], by simp [heq], hreg, hd⟩
@@ -62,7 +70,9 @@ theorem c14_only_for_own_message (b : Bool) (evs : List Ev) :
     | register f c cb =>
       simp only [step] at hx
       split at hx <;> exact old hx
-    | arrive a f ref reply acc =>
+    | registerResult f cb => exact old hx
+    | resultCbs a f d src => exact old hx
+    | arrive a f ref reply acc d src =>
       simp only [step] at hx
       split at hx
       · exact old hx
@@ -71,7 +81,7 @@ theorem c14_only_for_own_message (b : Bool) (evs : List Ev) :
         · exact old hx
         · obtain ⟨r, hr, rfl⟩ := List.mem_map.mp hx
           have hr' := List.mem_filter.mp hr
-          have hrf : r.feat = f ∧ r.ctr = ref := by simpa using hr'.2
+          have hrf : r.feat = f ∧ r.ctr = ref := by simpa [isFor] using hr'.2
           have hacc : acc = true ∧ Delivers b f reply := by
             unfold Delivers
             cases acc <;> cases b <;> cases reply <;> simp_all
@@ -82,45 +92,99 @@ theorem c14_only_for_own_message (b : Bool) (evs : List Ev) :
           rw [hrf.1, hrf.2] at this
           exact this
 
-theorem fired_mono_step (b : Bool) (s : St) (e : Ev) (x : Nat × Nat) (h : x ∈ s.fired) : x ∈ (step b s e).fired := by
+theorem fired_mono_step (b : Bool) (s : St) (e : Ev) (x : Fire) (h : x ∈ s.fired) : x ∈ (step b s e).fired := by
   cases e with
   | register f c cb => simp only [step]; split <;> exact h
-  | arrive a f ref reply acc =>
+  | registerResult f cb => exact h
+  | resultCbs a f d src => exact h
+  | arrive a f ref reply acc d src =>
     simp only [step]; split
     · exact h
     · exact List.mem_append_left _ h
 
-theorem fired_mono (b : Bool) (es : List Ev) : ∀ (s : St) (x : Nat × Nat), x ∈ s.fired → x ∈ (es.foldl (step b) s).fired := by
+theorem fired_mono (b : Bool) (es : List Ev) : ∀ (s : St) (x : Fire), x ∈ s.fired → x ∈ (es.foldl (step b) s).fired := by
   induction es with
   | nil => intro s x h; exact h
   | cons e es ih => intro s x h; exact ih _ x (fired_mono_step b s e x h)
 
 /-- C14, "invoked when an accepted reply or a result referencing that counter arrives for that feature": a
-    registration that is waiting after `pre` is invoked by the next delivered arrival for its feature and counter,
-    whatever happens afterwards -/
-theorem c14_fires (b : Bool) (pre post : List Ev) (r : Reg) (a : Nat) (reply : Bool)
+    registration that is waiting after `pre` is invoked by the next delivered arrival for its feature and counter —
+    with that arrival's data and origin — whatever happens afterwards -/
+theorem c14_fires (b : Bool) (pre post : List Ev) (r : Reg) (a d src : Nat) (reply : Bool)
     (hr : r ∈ (run b pre).regs) (hd : Delivers b r.feat reply) :
-    (r.id, a) ∈ (run b (pre ++ Ev.arrive a r.feat r.ctr reply true :: post)).fired := by
-  have : run b (pre ++ Ev.arrive a r.feat r.ctr reply true :: post)
-      = post.foldl (step b) (step b (run b pre) (Ev.arrive a r.feat r.ctr reply true)) := by
-    simp [run, List.foldl_append]
-  rw [this]
+    ⟨r.id, a, d, src⟩ ∈ (run b (pre ++ Ev.arrive a r.feat r.ctr reply true d src :: post)).fired := by
+  rw [run_append, List.foldl_cons]
   apply fired_mono
   have hc : (!true || (b && decide (r.feat = 0) && reply)) = false := by
     unfold Delivers at hd
     cases b <;> cases reply <;> simp_all
   simp only [step, hc, Bool.false_eq_true, if_false]
   apply List.mem_append_right
-  exact List.mem_map.mpr ⟨r, List.mem_filter.mpr ⟨hr, by simp⟩, rfl⟩
+  exact List.mem_map.mpr ⟨r, List.mem_filter.mpr ⟨hr, by simp [isFor]⟩, rfl⟩
 
 /-- the premise of `c14_fires` is met: a registration that was not refused is waiting -/
 theorem c14_registered_waits (b : Bool) (pre : List Ev) (f c cb : Nat)
-    (hnew : ¬ (run b pre).regs.any (fun r => r.feat = f && r.ctr = c && r.cb = cb) = true) :
+    (hnew : ¬ (run b pre).regs.any (isDup f c cb) = true) :
     ⟨(run b pre).next, f, c, cb⟩ ∈ (run b (pre ++ [Ev.register f c cb])).regs := by
   rw [run_snoc]
   simp only [step]
   rw [if_neg hnew]
   simp
+
+/-- … and it keeps waiting while nothing the feature delivers arrives for its feature and counter -/
+theorem waits_step (b : Bool) (s : St) (e : Ev) (r : Reg) (hr : r ∈ s.regs)
+    (hno : ∀ a reply d src, e ≠ Ev.arrive a r.feat r.ctr reply true d src) : r ∈ (step b s e).regs := by
+  cases e with
+  | register f c cb =>
+    simp only [step]; split
+    · exact hr
+    · exact List.mem_append_left _ hr
+  | registerResult f cb => exact hr
+  | resultCbs a f d src => exact hr
+  | arrive a f ref reply acc d src =>
+    simp only [step]; split
+    · exact hr
+    · rename_i hcond
+      refine List.mem_filter.mpr ⟨hr, ?_⟩
+      have hacc : acc = true := by cases acc <;> simp_all
+      subst hacc
+      have : ¬ (r.feat = f ∧ r.ctr = ref) := by
+        rintro ⟨rfl, rfl⟩
+        exact hno a reply d src rfl
+      simp only [isFor, Bool.not_eq_true', Bool.and_eq_false_iff, decide_eq_false_iff_not]
+      by_cases h1 : r.feat = f
+      · exact Or.inr (fun h2 => this ⟨h1, h2⟩)
+      · exact Or.inl h1
+
+theorem waits (b : Bool) (mid : List Ev) : ∀ (s : St) (r : Reg), r ∈ s.regs →
+    (∀ e ∈ mid, ∀ a reply d src, e ≠ Ev.arrive a r.feat r.ctr reply true d src) → r ∈ (mid.foldl (step b) s).regs := by
+  induction mid with
+  | nil => intro s r hr _; exact hr
+  | cons e es ih =>
+    intro s r hr hno
+    exact ih _ r (waits_step b s e r hr (hno e (by simp))) (fun e' he' => hno e' (List.mem_cons_of_mem _ he'))
+
+/-- C14, first sentence in one statement: a callback registered (not refused) for counter `c` on feature `f` is
+    invoked exactly once — by the first accepted arrival for `f` referencing `c` that the feature delivers, with that
+    arrival's data and origin — however the history continues -/
+theorem exactly_once (b : Bool) (pre mid post : List Ev) (f c cb a d src : Nat) (reply : Bool)
+    (hnew : ¬ (run b pre).regs.any (isDup f c cb) = true)
+    (hmid : ∀ e ∈ mid, ∀ a' reply' d' src', e ≠ Ev.arrive a' f c reply' true d' src')
+    (hd : Delivers b f reply) :
+    let evs := pre ++ [Ev.register f c cb] ++ mid ++ Ev.arrive a f c reply true d src :: post
+    ⟨(run b pre).next, a, d, src⟩ ∈ (run b evs).fired ∧
+    ((run b evs).fired.map (·.reg)).count (run b pre).next = 1 := by
+  intro evs
+  have h1 := c14_registered_waits b pre f c cb hnew
+  have h2 : (⟨(run b pre).next, f, c, cb⟩ : Reg) ∈ (run b (pre ++ [Ev.register f c cb] ++ mid)).regs := by
+    rw [run_append]
+    exact waits b mid _ _ h1 hmid
+  have h3 := c14_fires b (pre ++ [Ev.register f c cb] ++ mid) post ⟨(run b pre).next, f, c, cb⟩ a d src reply h2 hd
+  refine ⟨h3, ?_⟩
+  have hle := c14_at_most_once b evs (run b pre).next
+  have hpos : 0 < ((run b evs).fired.map (·.reg)).count (run b pre).next :=
+    List.count_pos_iff.mpr (List.mem_map.mpr ⟨_, h3, rfl⟩)
+  omega
 
 /-- "registering the same callback twice for one counter is refused": the second registration changes nothing -/
 theorem c14_duplicate_refused (b : Bool) (s : St) (f c cb : Nat)
@@ -129,10 +193,211 @@ theorem c14_duplicate_refused (b : Bool) (s : St) (f c cb : Nat)
   simp only [step]
   rw [if_pos]
   rw [List.any_eq_true]
-  exact ⟨r, hr, by simp [h1, h2, h3]⟩
+  exact ⟨r, hr, by simp [isDup, h1, h2, h3]⟩
 
 /-- non-vacuity: one registration, a reply for another counter, a reply for another feature, then the right one -/
-example : (run true [.register 1 5 7, .arrive 100 1 6 true true, .arrive 101 2 5 true true, .arrive 102 1 5 true true,
-    .arrive 103 1 5 true true]).fired = [(0, 102)] := by decide
+example : (run true [.register 1 5 7, .arrive 100 1 6 true true 1 1, .arrive 101 2 5 true true 2 2,
+    .arrive 102 1 5 true true 3 3, .arrive 103 1 5 true true 4 4]).fired = [⟨0, 102, 3, 3⟩] := by decide
+
+/-! ## result callbacks -/
+
+/-- AddResultCallback never refuses: the registration is in the list afterwards -/
+theorem result_registered (b : Bool) (pre : List Ev) (f cb : Nat) :
+    ⟨(run b pre).next, f, 0, cb⟩ ∈ (run b (pre ++ [Ev.registerResult f cb])).resRegs := by
+  rw [run_snoc]; simp [step]
+
+theorem resRegs_mono_step (b : Bool) (s : St) (e : Ev) (r : Reg) (h : r ∈ s.resRegs) : r ∈ (step b s e).resRegs := by
+  cases e with
+  | register f c cb => simp only [step]; split <;> exact h
+  | registerResult f cb => exact List.mem_append_left _ h
+  | resultCbs a f d src => exact h
+  | arrive a f ref reply acc d src => simp only [step]; split <;> exact h
+
+/-- a result callback stays registered for the rest of the history -/
+theorem result_reg_persists (b : Bool) (pre post : List Ev) (r : Reg) (h : r ∈ (run b pre).resRegs) :
+    r ∈ (run b (pre ++ post)).resRegs := by
+  rw [run_append]
+  generalize run b pre = s at h
+  induction post generalizing s with
+  | nil => exact h
+  | cons e es ih => exact ih _ (resRegs_mono_step b s e r h)
+
+theorem resFired_mono_step (b : Bool) (s : St) (e : Ev) (x : Fire) (h : x ∈ s.resFired) : x ∈ (step b s e).resFired := by
+  cases e with
+  | register f c cb => simp only [step]; split <;> exact h
+  | registerResult f cb => exact h
+  | resultCbs a f d src => exact List.mem_append_left _ h
+  | arrive a f ref reply acc d src => simp only [step]; split <;> exact h
+
+theorem resFired_mono (b : Bool) (es : List Ev) :
+    ∀ (s : St) (x : Fire), x ∈ s.resFired → x ∈ (es.foldl (step b) s).resFired := by
+  induction es with
+  | nil => intro s x h; exact h
+  | cons e es ih => intro s x h; exact ih _ x (resFired_mono_step b s e x h)
+
+/-- C14, second sentence, "is invoked … for every result message that feature receives which references a
+    request": a result callback registered after `pre` is invoked by every later result section of its feature, with
+    the data and origin of that result, in both members -/
+theorem c14_result_fires (b : Bool) (pre mid post : List Ev) (r : Reg) (a d src : Nat)
+    (hr : r ∈ (run b pre).resRegs) :
+    ⟨r.id, a, d, src⟩ ∈ (run b (pre ++ mid ++ Ev.resultCbs a r.feat d src :: post)).resFired := by
+  have hr' := result_reg_persists b pre mid r hr
+  rw [run_append, List.foldl_cons]
+  apply resFired_mono
+  simp only [step]
+  apply List.mem_append_right
+  exact List.mem_map.mpr ⟨r, List.mem_filter.mpr ⟨hr', by simp⟩, rfl⟩
+
+theorem resRegs_registered (b : Bool) (evs : List Ev) :
+    ∀ r ∈ (run b evs).resRegs, Ev.registerResult r.feat r.cb ∈ evs := by
+  induction evs using snoc_induction with
+  | nil => intro r hr; simp [run] at hr
+  | snoc evs e ih =>
+    intro r hr
+    rw [run_snoc] at hr
+    cases e with
+    | register f c cb =>
+      simp only [step] at hr
+      split at hr <;> exact List.mem_append_left _ (ih r hr)
+    | registerResult f cb =>
+      simp only [step] at hr
+      rcases List.mem_append.mp hr with hr | hr
+      · exact List.mem_append_left _ (ih r hr)
+      · simp only [List.mem_singleton] at hr; subst hr; simp
+    | resultCbs a f d src => exact List.mem_append_left _ (ih r hr)
+    | arrive a f ref reply acc d src =>
+      simp only [step] at hr
+      split at hr <;> exact List.mem_append_left _ (ih r hr)
+
+/-- result callbacks are invoked by nothing else: every invocation stems from a result section `x.arr` of the
+    feature on which a result callback was registered earlier, and carries that result's data and origin -/
+theorem c14_result_only_for_result (b : Bool) (evs : List Ev) :
+    ∀ x ∈ (run b evs).resFired, ∃ f cb pre post,
+      evs = pre ++ Ev.resultCbs x.arr f x.data x.src :: post ∧ Ev.registerResult f cb ∈ pre := by
+  induction evs using snoc_induction with
+  | nil => intro x hx; simp [run] at hx
+  | snoc evs e ih =>
+    intro x hx
+    rw [run_snoc] at hx
+    have old : x ∈ (run b evs).resFired → ∃ f cb pre post,
+        evs ++ [e] = pre ++ Ev.resultCbs x.arr f x.data x.src :: post ∧ Ev.registerResult f cb ∈ pre := by
+      intro h
+      obtain ⟨f, cb, pre, post, heq, hreg⟩ := ih x h
+      exact ⟨f, cb, pre, post ++ [e], by simp [heq], hreg⟩
+    cases e with
+    | register f c cb =>
+      simp only [step] at hx
+      split at hx <;> exact old hx
+    | registerResult f cb => exact old hx
+    | arrive a f ref reply acc d src =>
+      simp only [step] at hx
+      split at hx <;> exact old hx
+    | resultCbs a f d src =>
+      simp only [step] at hx
+      rcases List.mem_append.mp hx with hx | hx
+      · exact old hx
+      · obtain ⟨r, hr, rfl⟩ := List.mem_map.mp hx
+        have hr' := List.mem_filter.mp hr
+        have hrf : r.feat = f := by simpa using hr'.2
+        refine ⟨f, r.cb, evs, [], rfl, ?_⟩
+        have := resRegs_registered b evs r hr'.1
+        rw [hrf] at this
+        exact this
+
+/-- the arrival numbers of the result sections of a history -/
+def resArrivals : List Ev → List Nat
+  | [] => []
+  | .resultCbs a _ _ _ :: es => a :: resArrivals es
+  | _ :: es => resArrivals es
+
+theorem resArrivals_append (l₁ l₂ : List Ev) : resArrivals (l₁ ++ l₂) = resArrivals l₁ ++ resArrivals l₂ := by
+  induction l₁ with
+  | nil => rfl
+  | cons e es ih => cases e <;> simp [resArrivals, ih]
+
+structure RInv (s : St) (seen : List Nat) : Prop where
+  fresh : ∀ r ∈ s.resRegs, r.id < s.next
+  regNodup : (s.resRegs.map (·.id)).Nodup
+  pairs : (s.resFired.map fun x => (x.reg, x.arr)).Nodup
+  seenArr : ∀ x ∈ s.resFired, x.arr ∈ seen
+
+theorem rinv_run (b : Bool) (evs : List Ev) (hnd : (resArrivals evs).Nodup) : RInv (run b evs) (resArrivals evs) := by
+  induction evs using snoc_induction with
+  | nil => exact ⟨by simp [run], by simp [run], by simp [run], by simp [run]⟩
+  | snoc evs e ih =>
+    rw [resArrivals_append] at hnd ⊢
+    have hnd' := (List.nodup_append.mp hnd)
+    have h := ih hnd'.1
+    rw [run_snoc]
+    have wk : ∀ x ∈ (run b evs).resFired, x.arr ∈ resArrivals evs ++ resArrivals [e] :=
+      fun x hx => List.mem_append_left _ (h.seenArr x hx)
+    cases e with
+    | register f c cb =>
+      simp only [step]
+      split
+      · exact ⟨h.fresh, h.regNodup, h.pairs, wk⟩
+      · exact ⟨fun r hr => Nat.lt_succ_of_lt (h.fresh r hr), h.regNodup, h.pairs, wk⟩
+    | arrive a f ref reply acc d src =>
+      simp only [step]
+      split <;> exact ⟨h.fresh, h.regNodup, h.pairs, wk⟩
+    | registerResult f cb =>
+      refine ⟨?_, ?_, h.pairs, wk⟩
+      · intro r hr
+        simp only [step] at hr
+        rcases List.mem_append.mp hr with hr | hr
+        · exact Nat.lt_succ_of_lt (h.fresh r hr)
+        · simp only [List.mem_singleton] at hr; subst hr; exact Nat.lt_succ_self _
+      · simp only [step, List.map_append, List.map_cons, List.map_nil]
+        rw [List.nodup_append]
+        refine ⟨h.regNodup, by simp, ?_⟩
+        intro x hx y hy
+        simp only [List.mem_singleton] at hy; subst hy
+        obtain ⟨r, hr, rfl⟩ := List.mem_map.mp hx
+        have := h.fresh r hr
+        omega
+    | resultCbs a f d src =>
+      have hnew : a ∉ resArrivals evs := by
+        intro hm
+        exact hnd'.2.2 a hm a (by simp [resArrivals]) rfl
+      have hsub : ((run b evs).resRegs.filter (·.feat = f)).Sublist (run b evs).resRegs := List.filter_sublist
+      refine ⟨h.fresh, h.regNodup, ?_, ?_⟩
+      · simp only [step, List.map_append, List.map_map]
+        rw [List.nodup_append]
+        refine ⟨h.pairs, ?_, ?_⟩
+        · have : (((run b evs).resRegs.filter (·.feat = f)).map ((fun x : Fire => (x.reg, x.arr)) ∘ mkFire a d src))
+              = ((run b evs).resRegs.filter (·.feat = f)).map (fun r => (r.id, a)) := by
+            apply List.map_congr_left; intro r _; rfl
+          rw [this]
+          have hn : (((run b evs).resRegs.filter (·.feat = f)).map (·.id)).Nodup := (hsub.map _).nodup h.regNodup
+          have : (((run b evs).resRegs.filter (·.feat = f)).map (fun r => (r.id, a)))
+              = (((run b evs).resRegs.filter (·.feat = f)).map (·.id)).map (fun i => (i, a)) := by
+            rw [List.map_map]; rfl
+          rw [this]
+          exact List.Pairwise.map (fun i => (i, a)) (fun x y hxy h' => hxy (Prod.mk.inj h').1) hn
+        · intro x hx y hy hxy
+          obtain ⟨x0, hx0, rfl⟩ := List.mem_map.mp hx
+          obtain ⟨r, _, rfl⟩ := List.mem_map.mp hy
+          have : x0.arr = a := by
+            have := (Prod.mk.inj hxy).2
+            simpa [mkFire, Function.comp] using this
+          exact hnew (this ▸ h.seenArr x0 hx0)
+      · intro x hx
+        simp only [step] at hx
+        rcases List.mem_append.mp hx with hx | hx
+        · exact wk x hx
+        · obtain ⟨r, _, rfl⟩ := List.mem_map.mp hx
+          exact List.mem_append_right _ (by simp [resArrivals, mkFire])
+
+/-- C14, second sentence, "invoked *once* for every result message": when the result messages are distinct
+    (pairwise distinct arrival numbers), no result callback is invoked twice for the same result -/
+theorem c14_result_at_most_once (b : Bool) (evs : List Ev) (hnd : (resArrivals evs).Nodup) (r a : Nat) :
+    ((run b evs).resFired.map fun x => (x.reg, x.arr)).count (r, a) ≤ 1 :=
+  count_le_one_of_nodup _ _ (rinv_run b evs hnd).pairs
+
+/-- non-vacuity: two result callbacks on feature 1, one on feature 2; a reply and two results -/
+example : (run true [.registerResult 1 7, .registerResult 2 7, .arrive 100 1 5 true true 1 1,
+    .arrive 101 1 5 false true 2 1, .resultCbs 101 1 2 1, .registerResult 1 8,
+    .arrive 102 1 6 false true 3 1, .resultCbs 102 1 3 1]).resFired
+    = [⟨0, 101, 2, 1⟩, ⟨0, 102, 3, 1⟩, ⟨2, 102, 3, 1⟩] := by decide
 
 end Spine.CB
